@@ -56,7 +56,7 @@ var (
 	balancers = []string{"priority", "round-robin", "least-connections"}
 	// "" = the backend sends no Content-Type header at all
 	ctypes   = []string{"application/json", "text/event-stream", "application/x-ndjson", "text/plain", "application/octet-stream", ""}
-	statuses = []int{200, 200, 200, 201, 400, 404, 429, 500, 503}
+	statuses = []int{200, 200, 200, 201, 302, 307, 400, 404, 429, 500, 503}
 )
 
 const readTimeout = 1000 * time.Millisecond
@@ -82,6 +82,10 @@ func genPlan(t *rapid.T) Plan {
 	p.Status = rapid.SampledFrom(statuses).Draw(t, "status")
 	p.CT = rapid.SampledFrom(ctypes).Draw(t, "ct")
 	p.Extra = genExtra(t)
+	if p.Status >= 300 && p.Status < 400 {
+		// a redirect is the client's to follow: it is relayed like any other answer
+		p.Extra = append(p.Extra, [2]string{"Location", "http://127.0.0.1:9/elsewhere?x=1"})
+	}
 	sizeClass := rapid.IntRange(0, 9).Draw(t, "sizeclass")
 	switch {
 	case sizeClass == 0:
